@@ -18,7 +18,7 @@ from cryptoparser.common.base import (
     StringEnumParsable,
     VariantParsable
 )
-from cryptoparser.common.exception import InvalidType
+from cryptoparser.common.exception import InvalidType, NotEnoughData
 
 from cryptoparser.common.field import (
     FieldValueComponentParsable,
@@ -455,6 +455,10 @@ class DnsRecordTxtValueSpfModifierKnownBase(FieldValueComponentParsable):
         return cls.get_modifier().value.code
 
     @classmethod
+    def _check_name(cls, name):
+        cls._check_name_insensitive(name)
+
+    @classmethod
     def _get_value_class(cls):
         return SpfDomainSpec
 
@@ -492,9 +496,11 @@ class DnsRecordTxtValueSpfDirectiveBase(ParsableBase, Serializable):
 
         mechanism = cls.get_mechanism()
         try:
-            parser.parse_string('mechanism', mechanism.value.code)
-        except InvalidValue as e:
+            parser.parse_string_by_length('mechanism', len(mechanism.value.code), len(mechanism.value.code))
+        except NotEnoughData as e:
             six.raise_from(InvalidType, e)
+        if parser['mechanism'].lower() != mechanism.value.code:
+            raise InvalidType()
 
         return parser
 
@@ -884,6 +890,8 @@ class DnsRecordTxtValueSpf(ParsableBase, Serializable):
         terms = []
         while parser.unparsed_length:
             parser.parse_separator(' ')
+            if not parser.unparsed_length:
+                break
 
             try:
                 parser.parse_parsable('term', DnsRecordTxtValueSpfVariantParsable)
